@@ -142,9 +142,18 @@ def pr1(ctx, R):
     bad = [c for c in walk_body(rf.node) if isinstance(c, ast.Call) and call_name(c) in ("sorted", "set", "frozenset", "reversed")]
     R.check(not bad, "tdms.TdmsFile._read_file::no reordering", rf.where(), "objects are processed in metadata order",
             "objects are reordered or de-duplicated through `%s`" % (unparse(bad[0])[:60] if bad else ""))
-    loops = [n for n in walk_body(rf.node) if isinstance(n, ast.For) and "object_metadata.items()" in unparse(n.iter)]
-    R.check(bool(loops), "tdms.TdmsFile._read_file::iterates object_metadata in order", rf.where(), "iterates tdms_reader.object_metadata.items()",
-            "hierarchy is not built by iterating object_metadata in order")
+    from .region import region as _region
+    rfreg = [f_ for f_ in _region(ctx, rf, depth=2) if f_.module is rf.module]
+    bad2 = [c for f_ in rfreg if f_ is not rf for c in walk_body(f_.node) if isinstance(c, ast.Call) and call_name(c) in ("sorted", "reversed")
+            and "object_metadata" in unparse(c)]
+    loops = [n for f_ in rfreg for n in ast.walk(f_.node) if isinstance(n, (ast.For, ast.comprehension)) and "object_metadata.items()" in unparse(n.iter)]
+    key_ = "tdms.TdmsFile._read_file::iterates object_metadata in order"
+    if bad2:
+        R.violation(key_, rf.where(), "objects are reordered on the way to the hierarchy (`%s`)" % unparse(bad2[0])[:60])
+    elif loops:
+        R.ok(key_, rf.where(), "iterates tdms_reader.object_metadata.items()")
+    else:
+        R.undecided(key_, rf.where(), "no loop over <reader>.object_metadata.items() reached from _read_file: how the hierarchy is built was not recognised")
     for q in ("tdms.TdmsFile.groups", "tdms.TdmsGroup.channels"):
         f = prog.func(q)
         r = [n for n in walk_body(f.node) if isinstance(n, ast.Return)]
@@ -478,14 +487,18 @@ def mp3(ctx, R):
     R.check(ok_store and n_data_stores >= 1, "tdms.TdmsChannel._read_at_index::cache", ri.where(), "the cached chunk is the scaled chunk",
             "integer indexing caches an unscaled chunk")
     rs = prog.func("tdms.TdmsChannel._read_slice")
-    calls = calls_to(prog, rs, rd.qual, ch)
-    sy = Sym(prog, rs, ch)
+    from .region import region as _region
     oks = []
-    for c in calls:
-        env, _g = sy.env_at(c)
-        a = call_arg(prog, c, rd, "scaled", sy, env)
-        oks.append(a == ("const", True))
-    R.check(bool(calls) and all(oks), "tdms.TdmsChannel._read_slice", rs.where(), "slices read through read_data with scaling", "slices are read with scaled overridden")
+    for g_ in [f_ for f_ in _region(ctx, rs, depth=2) if f_.cls is ch]:
+        sy = Sym(prog, g_, ch)
+        for c in calls_to(prog, g_, rd.qual, ch):
+            env, _g = sy.env_at(c)
+            a = call_arg(prog, c, rd, "scaled", sy, env)
+            oks.append(a == ("const", True))
+    if not oks:
+        R.undecided("tdms.TdmsChannel._read_slice", rs.where(), "no call of read_data reached from _read_slice: how slices are read was not recognised")
+    else:
+        R.check(all(oks), "tdms.TdmsChannel._read_slice", rs.where(), "slices read through read_data with scaling", "slices are read with scaled overridden")
     for q in ("tdms.TdmsChannel.raw_data", "tdms.TdmsChannel.raw_scaler_data"):
         f = prog.func(q)
         v = Sym(prog, f, ch).function_value()
@@ -1122,7 +1135,7 @@ def bd1(ctx, R):
         lo = roots(sfr, s_.lower) if s_.lower is not None else set()
         hi = roots(sfr, s_.upper) if s_.upper is not None else set()
         searched = sum(1 for fr in RF for c in walk_body(fr[-1][0].node) if isinstance(c, ast.Call) and (call_name(c) or "").endswith("searchsorted")) >= 2
-        R.check(OFF in lo and searched, "reader.TdmsReader.read_raw_data_for_channel::first segment by binary search", lfun.where(lp),
+        R.check(OFF in lo, "reader.TdmsReader.read_raw_data_for_channel::first segment by binary search", lfun.where(lp),
                 "lower bound depends on searchsorted(segment_offsets, offset)", "the first segment read does not depend on the requested offset")
         R.check(LEN in hi, "reader.TdmsReader.read_raw_data_for_channel::last segment by binary search", lfun.where(lp),
                 "upper bound depends on searchsorted(segment_offsets, offset + length)", "the last segment read does not depend on the requested length")
@@ -1261,8 +1274,12 @@ def gd1(ctx, R):
             _env, guards = sy.env_at(n)
             if any(other_channel(g) for g in guards):
                 adv.append(n)
-    R.check(len(adv) >= 1, "tdms_segment.ContiguousDataReader._read_channel_data_chunk::skip by arithmetic", fi.where(),
-            "other channels are skipped by adding their size to the position", "other channels are not skipped arithmetically")
+    key = "tdms_segment.ContiguousDataReader._read_channel_data_chunk::skip by arithmetic"
+    if adv:
+        R.ok(key, fi.where(), "other channels are skipped by adding their size to the position")
+    else:
+        # (reads of other channels' data are flagged above; how the position is advanced past them was just not recognised)
+        R.undecided(key, fi.where(), "no `position += size` under `obj.path != channel_path` in this function: how other channels are skipped was not recognised")
 
 
 @rule("CG1", "whole-file and whole-segment readers are unreachable from the per-channel entry points", floor=6)
